@@ -30,6 +30,7 @@ type conn struct {
 	results  map[int]chan data
 	lock     sync.Mutex
 	counter  int32
+	err      error
 	onClose  func(*websocket.Conn)
 	once     sync.Once
 }
@@ -62,10 +63,13 @@ func newConn(ctx context.Context, onConnect func(*websocket.Conn) *websocket.Con
 	}, nil
 }
 
-func (c *conn) store(index int, resultChan chan data) {
+func (c *conn) store(index int, resultChan chan data) (err error) {
 	c.lock.Lock()
-	c.results[index] = resultChan
+	if err = c.err; err == nil {
+		c.results[index] = resultChan
+	}
 	c.lock.Unlock()
+	return
 }
 
 func (c *conn) delete(index int) {
@@ -101,7 +105,9 @@ func (c *conn) rangeAndClean(f func(index int, resultChan chan data)) {
 func (c *conn) Transport(ctx context.Context, request []byte) (response []byte, err error) {
 	index := int(atomic.AddInt32(&c.counter, 1) & 0x7fffffff)
 	resultChan := make(chan data, 1)
-	c.store(index, resultChan)
+	if err = c.store(index, resultChan); err != nil {
+		return nil, err
+	}
 	select {
 	case <-ctx.Done():
 		c.delete(index)
@@ -222,6 +228,11 @@ func (c *conn) Close(err error) {
 		c.onClose(c.Conn)
 		_ = c.Conn.Close()
 	})
+	c.lock.Lock()
+	if c.err == nil {
+		c.err = err
+	}
+	c.lock.Unlock()
 	c.rangeAndClean(func(index int, resultChan chan data) {
 		resultChan <- data{
 			Index: index,
